@@ -211,6 +211,21 @@ neighbouring PINs' hashes, invalid PINs. distinct = distinct (pin, seed mod 10!)
                             judge_verify(&mut rep, pin, sd, &ss, &cs, &x, "bitflip");
                         }
                     }
+                    {
+                        let mut x = h;
+                        x.reverse();
+                        judge_verify(&mut rep, pin, sd, &ss, &cs, &x, "cancelling_change");
+                        let mut y = h;
+                        y.rotate_left(1);
+                        judge_verify(&mut rep, pin, sd, &ss, &cs, &y, "cancelling_change");
+                        let mut z = h;
+                        let (a, b) = ((i % 20) as usize, ((i / 20 + 7) % 20) as usize);
+                        if a != b {
+                            z[a] ^= 0x10;
+                            z[b] ^= 0x10;
+                            judge_verify(&mut rep, pin, sd, &ss, &cs, &z, "cancelling_change");
+                        }
+                    }
                     for np in [pin.wrapping_add(1), pin.wrapping_sub(1), pin / 10, pin.wrapping_mul(10)] {
                         if let Some(nh) = model_hash(np, sd, &ss, &cs) {
                             judge_verify(&mut rep, pin, sd, &ss, &cs, &nh, "neighbour_pin_hash");
@@ -228,6 +243,35 @@ neighbouring PINs' hashes, invalid PINs. distinct = distinct (pin, seed mod 10!)
                     let any: [u8; 20] = rng.arr();
                     judge_verify(&mut rep, pin, sd, &ss, &cs, &any, "invalid_pin_any_hash");
                 }
+            }
+            if i % 512 == 0 {
+                // related inputs immediately after one another (a result remembered under a partial key would show)
+                let mut ss2 = ss;
+                ss2[15] ^= 1;
+                let mut cs2 = cs;
+                cs2[0] ^= 0x80;
+                let rel: [(u32, u32, [u8; 16], [u8; 16]); 9] = [
+                    (pin, sd, ss2, cs),
+                    (pin, sd, ss, cs2),
+                    (pin, sd, cs, ss),
+                    (pin.wrapping_add(1), sd, ss, cs),
+                    (pin, sd.wrapping_add(1), ss, cs),
+                    (pin, sd.wrapping_add(FACT10), ss, cs),
+                    (pin, sd ^ 0x8000_0000, ss, cs),
+                    (pin / 10, sd, ss, cs),
+                    (pin, sd, ss, cs),
+                ];
+                for (p2, s2, a2, b2) in rel {
+                    judge(&mut rep, p2, s2, &a2, &b2, "related_consecutive");
+                    if let Some(hh) = model_hash(p2, s2, &a2, &b2) {
+                        judge_verify(&mut rep, p2, s2, &a2, &b2, &hh, "related_consecutive");
+                        // a hash of the related input must not verify for the base input
+                        if (p2, s2, a2, b2) != (pin, sd, ss, cs) {
+                            judge_verify(&mut rep, pin, sd, &ss, &cs, &hh, "related_consecutive");
+                        }
+                    }
+                }
+                rep.count("related_consecutive_groups", 1);
             }
             if i < 2 && sh == 0 {
                 rep.sample(format!("pin={} seed={} layout={:?} -> {:?}", pin, sd, layout(sd), h.map(|x| hex(&x))));
